@@ -841,7 +841,6 @@ impl ReceiverLinkT {
 //@@ nowhere
 //@@ subst `let mut guard = self.unsettled.write();` => `let mut guard = &mut self.unsettled;` rule=R4
 //@@ subst `guard.get_or_insert(OrderedMap::new())` => `opt_get_or_insert_new(&mut *guard)` rule=R15
-//@@ subst `val.as_ref().map(|v| v.is_terminal())` => `opt_is_terminal(&*val)` rule=R18
 //@@ spec
     ensures
         *delivery_tag is None ==> r == Err::<(), ReceiverTransferError>(ReceiverTransferError::DeliveryTagIsNone) && final(self).unsettled == old(self).unsettled,
